@@ -17,7 +17,7 @@ from sim.driver import Report
 PROP = "C12"
 TIERS = {"quick": {"pairs": 100, "envs": 7, "budget": 70.0}, "thorough": {"pairs": 1200, "envs": 12, "budget": 1500.0}}
 SCRATCH = "/dev/shm" if os.path.isdir("/dev/shm") else tempfile.gettempdir()
-E0 = {"route": "api", "heap": 0, "dir_seed": 0, "clock": "2001-02-03T04:05:06", "history": [], "cache": 0, "repeat": 1}
+E0 = {"route": "api", "heap": 0, "dir_seed": 0, "clock": "2001-02-03T04:05:06", "history": [], "cache": 0, "repeat": 1, "history_same_package": 0}
 ROUTES = ["api", "api_file", "cli_flags", "cli_config", "cli_mixed"]
 
 
@@ -43,6 +43,8 @@ def sources():
         ("sink_registry", os.path.join(core.VERIF, "sim", "c12", "schemas", "sink", "registry.xsd"), False, 2),
         ("xml_samples", os.path.join(core.VERIF, "sim", "c12", "samples", "xmldocs"), False, 2),
         ("json_samples", os.path.join(core.VERIF, "sim", "c12", "samples", "jsondocs"), False, 2),
+        ("twins_v1", os.path.join(core.VERIF, "sim", "c12", "schemas", "twins", "v1"), False, 2),
+        ("twins_v2", os.path.join(core.VERIF, "sim", "c12", "schemas", "twins", "v2"), False, 2),
         ("choices", os.path.join(core.VERIF, "sim", "c12", "schemas", "choices"), False, 4),
         ("samename", os.path.join(core.VERIF, "sim", "c12", "schemas", "samename"), False, 4),
         ("samename_ledger", os.path.join(core.VERIF, "sim", "c12", "schemas", "samename", "ledger.xsd"), False, 2),
@@ -101,11 +103,13 @@ def gen_env(rng, srcs):
             hp = gen_params(rng)
             hist.append({"source": "@same" if rng.random() < 0.5 else path, "recursive": rec, "params": hp, "route": "api" if "adv" in hp else rng.choice(["api", "cli_flags"])})
         env["history"] = hist
-    if rng.random() < 0.15:
+    if rng.random() < 0.2:
         env["cache"] = 1
-        env["repeat"] = 2
+        env["repeat"] = rng.choice([1, 2])
     elif rng.random() < 0.15:
         env["repeat"] = 2
+    if env.get("history") and rng.random() < 0.3:
+        env["history_same_package"] = 1  # an earlier generation into the same package name from another directory
     return env
 
 
@@ -116,7 +120,17 @@ def run_child(source, recursive, params, env, timeout=600.0):
     if "adv" in params and env.get("route") == "cli_flags":
         env["route"] = "cli_config"  # settings without a flag must travel in the configuration file
     if env.get("history"):
-        env["history"] = [dict(h, source=source, recursive=recursive) if h["source"] == "@same" else h for h in env["history"]]
+        twin = None
+        if "/twins/v1" in source:
+            twin = source.replace("/twins/v1", "/twins/v2")
+        elif "/twins/v2" in source:
+            twin = source.replace("/twins/v2", "/twins/v1")
+        hist = []
+        for h in env["history"]:
+            if h["source"] == "@same":
+                h = dict(h, source=twin or source, recursive=recursive)
+            hist.append(h)
+        env["history"] = hist
     try:
         spec = {"repo": core.REPO, "verif": core.VERIF, "source": source, "recursive": recursive, "params": params, "env": env, "workdir": work}
         penv = {k: v for k, v in os.environ.items() if not k.startswith("VERIF_PINNED")}
@@ -185,7 +199,7 @@ def minimize_env(source, recursive, params, env, ref, sigkind):
     """Reset environment components to E0 one at a time while the difference persists."""
     best = dict(env)
     trials = 0
-    for key in ("history", "cache", "repeat", "dir_seed", "heap", "route", "clock", "hashseed"):
+    for key in ("history_same_package", "history", "cache", "repeat", "dir_seed", "heap", "route", "clock", "hashseed"):
         default = E0.get(key, 0)
         if best.get(key, default) == default:
             continue
@@ -298,6 +312,15 @@ def check(args):
         if d is None:
             small, d = v["env"], v["diff"]
         changed = [k for k in E0 if small.get(k, E0[k]) != E0[k]] + (["hashseed"] if small.get("hashseed") else [])
+        if d["kind"] == "exception" and "history_same_package" in changed and not small.get("cache"):
+            # refine the signature: which exception flips, under an earlier generation into the same package name
+            def etype(x):
+                return (x or "none").split(":")[0]
+
+            circ = "circular" if "Circular Dependencies" in ((d["got"] or "") + (d["ref"] or "")) else "other"
+            sig = ("differs", "exception", etype(d["got"]), etype(d["ref"]), "same-package-history", circ)
+        elif d["kind"] == "exception":
+            sig = signature({"diff": d, "env": small}, path)
         payload = {"property": PROP, "source": {"name": name, "path": path, "recursive": rec}, "params": params, "env": small, "sig": list(sig), "violation": d, "environment_components_needed": changed}
         path_r = core.write_replay(PROP, f"{name}-{core.digest([params, small])}", payload)
         first = d.get("diff", [])[:6] if d["kind"] == "content" else d
